@@ -359,21 +359,14 @@ pub fn rlwinm_(
       zeros. All other bits are set to ones.
     */
 
+    // MASK(mb, me) in big-endian bit numbering (bit 0 is the most significant
+    // bit): `ones(a, b)` has bits a..=b set.
+    let ones = |a: u64, b: u64| -> u64 { (((1u64 << (b - a + 1)) - 1) << (31 - b)) & 0xffff_ffff };
     let mask = match mb.cmp(&(me + 1)) {
-        Ordering::Less => {
-            let mb = 32 - mb;
-            let me = 32 - me;
-            let mask = (1 << (mb - me)) - 1;
-            mask << me
-        }
+        Ordering::Less => ones(mb, me),
         Ordering::Equal => 0xffff_ffff,
-        Ordering::Greater => {
-            let mb = 32 - mb;
-            let me = 32 - me;
-            let mask = (1 << (me - mb)) - 1;
-            let mask = mask << mb;
-            mask ^ 0xffff_ffff
-        }
+        // wrap-around: everything except bits me+1 ..= mb-1
+        Ordering::Greater => ones(me + 1, mb - 1) ^ 0xffff_ffff,
     };
 
     let block_index = {
